@@ -352,6 +352,16 @@ def expanded_atoms(cfg: CFG, test: ast.AST, truth: bool, depth: int = 0):
     defs = _bool_defs(cfg)
     for a, t in atoms(test, truth):
         yield a, t
+        if any(isinstance(x, ast.NamedExpr) for x in ast.walk(a)):
+            # `(x := f()) is not None` states the same fact about x as `x is not None`
+            import copy as _copy
+
+            class _W(ast.NodeTransformer):
+                def visit_NamedExpr(self, n):
+                    return ast.copy_location(ast.Name(id=n.target.id, ctx=ast.Load()), n) if isinstance(n.target, ast.Name) else n
+
+            a = ast.fix_missing_locations(_W().visit(_copy.deepcopy(a)))
+            yield a, t
         comp = _complement(a)
         if comp is not None:
             yield comp, (not t)  # `x is None` false  ==  `x is not None` true: rules state a fact in either spelling
@@ -386,9 +396,26 @@ def edges_establishing(cfg: CFG, pred) -> list:
         if n.kind != "test" or isinstance(getattr(n, "stmt", None), ast.Match):
             continue
         for label in (True, False):
-            ds = disjuncts(n.ast, label)
+            ds = _expand_disjuncts(cfg, disjuncts(n.ast, label))
             if ds and all(any(pred(a, t) for a, t in expanded_atoms(cfg, d, tv)) for d, tv in ds):
                 out.append((n, label))
+    return out
+
+
+def _expand_disjuncts(cfg: CFG, ds: list, depth: int = 0) -> list:
+    """a disjunct that is a boolean local with one definition stands for the disjuncts of that definition
+    (`ok = a and b; if ok: … else: <knows not a or not b>`)"""
+    if depth > 3:
+        return ds
+    defs = _bool_defs(cfg)
+    out = []
+    for d, tv in ds:
+        if isinstance(d, ast.Name) and d.id in defs:
+            sub = disjuncts(defs[d.id], tv)
+            if len(sub) > 1 or (sub and sub[0][0] is not defs[d.id]):
+                out.extend(_expand_disjuncts(cfg, sub, depth + 1))
+                continue
+        out.append((d, tv))
     return out
 
 
